@@ -581,4 +581,201 @@ Proof.
       * now apply (placed_below_right v w Hv Hwmu W2).
 Qed.
 End Step.
+
+(* ---------------------------------------------------------------------------------------------- *)
+(* 5. place_complete                                                                               *)
+
+Lemma exists_worst v (l : list N) : NoDup v -> incl l v -> l <> [] -> exists x, bottom_in v l x.
+Proof.
+  intros Hv. induction l as [|a l IH]; intros Hin Hne; [congruence|].
+  destruct l as [|b l'].
+  - exists a. split; [now left|]. intros u [E|[]] Hn. congruence.
+  - destruct IH as (x & Hx & Hbot); [intros y Hy; apply Hin; now right|discriminate|].
+    destruct (lt_dec (rk v x) (rk v a)) as [L|L].
+    + exists a. split; [now left|]. intros u [E|Hu] Hua; [congruence|].
+      destruct (N.eq_dec u x) as [->|Hux]; [assumption|]. specialize (Hbot u Hu Hux). lia.
+    + exists x. split; [now right|]. intros u [E|Hu] Hux; [subst u|now apply Hbot].
+      assert (rk v a <> rk v x) by (apply rk_neq; auto; [apply Hin; now left|apply Hin; now right]). lia.
+Qed.
+
+Lemma bottom_unique v l x y : bottom_in v l x -> bottom_in v l y -> x = y.
+Proof.
+  intros [Hx Bx] [Hy By]. destruct (N.eq_dec x y) as [|Hne]; [assumption|exfalso].
+  specialize (Bx y Hy (fun E => Hne (eq_sym E))). specialize (By x Hx Hne). lia.
+Qed.
+
+Lemma bottom_in_perm v l l' x : Permutation l l' -> bottom_in v l x -> bottom_in v l' x.
+Proof.
+  intros Hp [Hx Hb]. split; [eapply Permutation_in; eauto|]. intros u Hu. apply Hb.
+  eapply Permutation_in; [apply Permutation_sym; exact Hp|exact Hu].
+Qed.
+
+Lemma all_or_ex {T} (P Q : T -> Prop) (l : list T) : (forall v, In v l -> P v \/ Q v) ->
+  (forall v, In v l -> P v) \/ (exists v, In v l /\ Q v).
+Proof.
+  induction l as [|a l IH]; intros H; [left; intros v []|].
+  destruct (H a (or_introl eq_refl)) as [Pa|Qa]; [|right; exists a; split; [now left|assumption]].
+  destruct IH as [All|(v & Hv & Qv)]; [intros v Hv; apply H; now right| |].
+  - left. intros v [<-|Hv]; auto.
+  - right. exists v. split; [now right|assumption].
+Qed.
+
+Lemma two_ends {T} (l l1 l2 : list T) h t : l = h :: l1 -> l = l2 ++ [t] -> h <> t -> exists l0, l = h :: l0 ++ [t].
+Proof.
+  intros E1 E2 Hne. destruct l2 as [|h' l2']; rewrite E2 in E1; simpl in E1.
+  - injection E1 as -> _. congruence.
+  - injection E1 as -> _. exists l2'. rewrite E2. reflexivity.
+Qed.
+
+Lemma filter_not_mem_cons (X l : list N) x : ~ In x l -> In x X -> filter (fun u => negb (memN u X)) (x :: l) = filter (fun u => negb (memN u X)) l.
+Proof. intros _ Hx. simpl. assert (E : memN x X = true) by now apply memN_In. now rewrite E. Qed.
+
+(* the unplaced rest after removing the bottoms *)
+Definition rest (X U : list N) : list N := filter (fun u => negb (memN u X)) U.
+
+Variable pair_first : N -> N -> bool.
+
+Theorem place_complete A U : U <> [] -> NoDup (pa_elems A ++ U) ->
+  (forall v, In v votes -> NoDup v /\ incl (pa_elems A ++ U) v) -> completable A U ->
+  exists x1 x2, isbottom U x1 /\ isbottom U x2 /\ (forall y, isbottom U y -> y = x1 \/ y = x2) /\
+  exists A' ok, place pair_first A (mkset x1 x2) votes = (A', ok) /\
+    pa_len A' = pa_len A + length (mkset x1 x2) /\
+    Permutation (pa_elems A' ++ rest (mkset x1 x2) U) (pa_elems A ++ U) /\
+    completable A' (rest (mkset x1 x2) U) /\
+    (rest (mkset x1 x2) U <> [] -> ok = true) /\ pa_eqb A' A = false.
+Proof.
+  intros HUne Hnd Hwf (mu & Hperm & Hsp). destruct A as [M1 M2]. unfold pa_elems in *. cbn [fst snd] in *.
+  assert (Hps : Permutation ((rev M1 ++ M2) ++ U) (rev M1 ++ mu ++ M2)).
+  { rewrite <- app_assoc. apply Permutation_app_head. eapply perm_trans; [apply Permutation_app_comm|].
+    now apply Permutation_app_tail. }
+  assert (Hnds : NoDup (rev M1 ++ mu ++ M2)) by (eapply Permutation_NoDup; eauto).
+  assert (Hwfs : forall v, In v votes -> NoDup v /\ incl (rev M1 ++ mu ++ M2) v).
+  { intros v Hv. destruct (Hwf v Hv) as [N1 N2]. split; [assumption|]. intros a Ha. apply N2.
+    eapply Permutation_in; [apply Permutation_sym; exact Hps|exact Ha]. }
+  assert (Hnmu : NoDup mu) by (apply NoDup_app_r in Hnds; now apply NoDup_app_l in Hnds).
+  assert (Hmune : mu <> []) by (intros ->; apply Permutation_sym, Permutation_nil in Hperm; congruence).
+  assert (Hmuv : forall v, In v votes -> incl mu v).
+  { intros v Hv a Ha. apply (proj2 (Hwfs v Hv)). apply in_or_app. right. apply in_or_app. now left. }
+  (* every vote ranks last the first or the last alternative of mu *)
+  destruct mu as [|h mu1] eqn:Emu; [congruence|]. rewrite <- Emu in *.
+  destruct (exists_last Hmune) as (mu2 & t & Et).
+  assert (Hends : forall v, In v votes -> bottom_in v mu h \/ bottom_in v mu t).
+  { intros v Hv. destruct (Hwfs v Hv) as [N1 N2].
+    destruct (exists_worst v mu N1 (Hmuv v Hv) Hmune) as (x & Bx).
+    assert (Hspmu : spv v mu) by (specialize (Hsp v Hv); apply spv_app_r in Hsp; now apply spv_app_l in Hsp).
+    destruct (bottom_at_end v mu x Hnmu Hspmu (proj1 Bx) (proj2 Bx)) as [(m0 & E)|(m0 & E)].
+    - left. rewrite Emu in E. injection E as E _. now rewrite E.
+    - right. rewrite Et in E. apply app_inj_tail in E. destruct E as [_ E]. now rewrite E. }
+  assert (Hrest1 : forall x m0, (mu = x :: m0 \/ mu = m0 ++ [x]) -> Permutation (rest [x] U) m0).
+  { intros x m0 Hm. unfold rest. eapply perm_trans; [apply Permutation_filter; exact Hperm|].
+    assert (Hx0 : ~ In x m0).
+    { destruct Hm as [E|E]; rewrite E in Hnmu; [now inversion Hnmu|].
+      intros H. apply (NoDup_app_disj m0 [x] Hnmu x H). now left. }
+    assert (F : filter (fun u => negb (memN u [x])) m0 = m0).
+    { apply filter_all_true. intros u Hu. apply negb_true_iff, memN_false. intros [->|[]]. contradiction. }
+    destruct Hm as [-> | ->].
+    - rewrite filter_not_mem_cons; [now rewrite F|assumption|now left].
+    - rewrite filter_app, F. simpl. unfold memN. simpl. rewrite N.eqb_refl. simpl. now rewrite app_nil_r. }
+  assert (Hsingle : forall x m0, (mu = x :: m0 \/ mu = m0 ++ [x]) -> (forall v, In v votes -> bottom_in v mu x) ->
+    exists x1 x2, isbottom U x1 /\ isbottom U x2 /\ (forall y, isbottom U y -> y = x1 \/ y = x2) /\
+    exists A' ok, place pair_first (M1, M2) (mkset x1 x2) votes = (A', ok) /\
+      pa_len A' = pa_len (M1, M2) + length (mkset x1 x2) /\
+      Permutation ((rev (fst A') ++ snd A') ++ rest (mkset x1 x2) U) ((rev M1 ++ M2) ++ U) /\
+      completable A' (rest (mkset x1 x2) U) /\
+      (rest (mkset x1 x2) U <> [] -> ok = true) /\ pa_eqb A' (M1, M2) = false).
+  { intros x m0 Hm Hall. destruct votes as [|v0 votes'] eqn:Ev; [congruence|]. rewrite <- Ev in *.
+    assert (Hv0 : In v0 votes) by (rewrite Ev; now left).
+    assert (Hbx : isbottom U x).
+    { exists v0. split; [assumption|]. apply (bottom_in_perm v0 mu U); [now apply Permutation_sym|now apply Hall]. }
+    exists x, x. split; [assumption|]. split; [assumption|]. split.
+    { intros y (v & Hv & By). left. apply (bottom_unique v mu); [|now apply Hall].
+      now apply (bottom_in_perm v U mu). }
+    assert (Emk : mkset x x = [x]) by (unfold mkset; now rewrite N.eqb_refl). rewrite Emk. cbn [place].
+    destruct (single_step M1 M2 mu Hnds Hwfs Hsp x m0 Hm Hall) as (A' & ok & Hc3 & HA' & Hsp' & Hok).
+    exists A', ok. split; [exact Hc3|]. pose proof (Hrest1 x m0 Hm) as Pr.
+    assert (Hx0 : ~ In x (rev M1 ++ M2)).
+    { assert (Hxmu : In x mu) by (destruct Hm as [-> | ->]; [now left|apply in_or_app; right; now left]).
+      intros H. apply in_app_or in H. destruct H as [H|H].
+      - apply (NoDup_app_disj _ _ Hnds x H). apply in_or_app. now left.
+      - apply NoDup_app_r in Hnds. apply (NoDup_app_disj _ _ Hnds x Hxmu H). }
+    assert (PU : Permutation (x :: rest [x] U) U).
+    { eapply perm_trans; [apply perm_skip; exact Pr|]. eapply perm_trans; [|apply Permutation_sym; exact Hperm].
+      destruct Hm as [-> | ->]; [apply Permutation_refl|]. apply Permutation_cons_append. }
+    split; [destruct HA' as [-> | ->]; unfold pa_len; simpl; lia|]. split.
+    { destruct HA' as [-> | ->]; cbn [fst snd].
+      - simpl. rewrite <- !app_assoc. simpl. apply Permutation_app_head.
+        eapply perm_trans; [apply Permutation_middle|]. apply Permutation_app_head. exact PU.
+      - rewrite <- !app_assoc. apply Permutation_app_head. simpl.
+        eapply perm_trans; [apply Permutation_middle|]. apply Permutation_app_head. exact PU. }
+    split; [exists m0; split; assumption|]. split.
+    { intros Hne. apply Hok. intros ->. apply Hne. apply Permutation_sym in Pr. now apply Permutation_nil in Pr. }
+    { unfold pa_eqb. destruct HA' as [-> | ->]; cbn [fst snd].
+      - destruct (list_eq_dec N.eq_dec (x :: M1) M1) as [E|]; [|reflexivity].
+        exfalso. apply (f_equal (@length N)) in E. simpl in E. lia.
+      - destruct (list_eq_dec N.eq_dec (x :: M2) M2) as [E|]; [|apply andb_false_r].
+        exfalso. apply (f_equal (@length N)) in E. simpl in E. lia. } }
+  destruct (N.eq_dec h t) as [Eht|Hht].
+  - (* a single unplaced alternative *)
+    subst t. assert (Allh : forall v, In v votes -> bottom_in v mu h) by (intros v Hv; destruct (Hends v Hv); assumption).
+    destruct (Hsingle h mu1 (or_introl Emu) Allh) as (x1 & x2 & R). exists x1, x2. exact R.
+  - destruct (all_or_ex _ _ votes Hends) as [Allh|(vt & Hvt & Bt)].
+    + destruct (Hsingle h mu1 (or_introl Emu) Allh) as (x1 & x2 & R). exists x1, x2. exact R.
+    + assert (Hends' : forall v, In v votes -> bottom_in v mu t \/ bottom_in v mu h) by (intros v Hv; destruct (Hends v Hv); auto).
+      destruct (all_or_ex (fun v => bottom_in v mu t) (fun v => bottom_in v mu h) votes Hends') as [Allt|(vh & Hvh & Bh)].
+      * destruct (Hsingle t mu2 (or_intror Et) Allt) as (x1 & x2 & R). exists x1, x2. exact R.
+      * (* two bottoms h (left end) and t (right end) *)
+        destruct (two_ends mu mu1 mu2 h t Emu Et Hht) as (mu0 & Emu0).
+        exists h, t.
+        assert (Bh' : isbottom U h).
+        { exists vh. split; [assumption|]. apply (bottom_in_perm vh mu U); [now apply Permutation_sym|assumption]. }
+        assert (Bt' : isbottom U t).
+        { exists vt. split; [assumption|]. apply (bottom_in_perm vt mu U); [now apply Permutation_sym|assumption]. }
+        split; [assumption|]. split; [assumption|]. split.
+        { intros y (v & Hv & By). apply (bottom_in_perm v U mu y Hperm) in By.
+          destruct (Hends v Hv) as [B|B]; [left|right]; eapply bottom_unique; eauto. }
+        assert (Hin2 : forall u, In u (mkset h t) <-> u = h \/ u = t).
+        { intros u. unfold mkset. destruct (N.eqb_spec h t); [congruence|].
+          destruct (N.ltb h t); simpl; intuition auto. }
+        assert (Hc2 : exists x1 x2, ((x1 = h /\ x2 = t) \/ (x1 = t /\ x2 = h)) /\
+                       place pair_first (M1, M2) (mkset h t) votes = case_2 (M1, M2) x1 x2 votes).
+        { unfold mkset. destruct (N.eqb_spec h t); [congruence|]. destruct (N.ltb h t); cbn [place].
+          - destruct (pair_first h t); [exists h, t|exists t, h]; auto.
+          - destruct (pair_first t h); [exists t, h|exists h, t]; auto. }
+        destruct Hc2 as (x1 & x2 & Hx & Epl).
+        destruct (double_step M1 M2 mu Hnds Hwfs Hsp h t mu0 x1 x2 Emu0
+                    (ex_intro _ vh (conj Hvh Bh)) (ex_intro _ vt (conj Hvt Bt)) Hx)
+          as (A' & mu0' & Hc & HA' & Pm & Hsp').
+        exists A', true. split; [now rewrite Epl|].
+        assert (Hlen2 : length (mkset h t) = 2).
+        { unfold mkset. destruct (N.eqb_spec h t); [congruence|]. destruct (N.ltb h t); reflexivity. }
+        assert (Hh0 : ~ In h mu0 /\ ~ In t mu0).
+        { rewrite Emu0 in Hnmu. inversion Hnmu as [|? ? Hn Hn2]; subst. split.
+          - intros H. apply Hn. apply in_or_app. now left.
+          - intros H. apply (NoDup_app_disj mu0 [t] Hn2 t H). now left. }
+        assert (Pr : Permutation (rest (mkset h t) U) mu0).
+        { unfold rest. eapply perm_trans; [apply Permutation_filter; exact Hperm|]. rewrite Emu0.
+          assert (F : filter (fun u => negb (memN u (mkset h t))) mu0 = mu0).
+          { apply filter_all_true. intros u Hu. apply negb_true_iff, memN_false. intros H. apply Hin2 in H.
+            destruct H as [-> | ->]; tauto. }
+          rewrite filter_not_mem_cons; [|intros H; apply in_app_or in H; destruct H as [H|[H|[]]]; [tauto|congruence]|apply Hin2; now left].
+          rewrite filter_app, F. simpl. assert (E : memN t (mkset h t) = true) by (apply memN_In, Hin2; now right).
+          rewrite E. simpl. now rewrite app_nil_r. }
+        split; [destruct HA' as [-> | ->]; unfold pa_len; simpl; lia|]. split.
+        { assert (PU : Permutation (h :: t :: rest (mkset h t) U) U).
+          { eapply perm_trans; [|apply Permutation_sym; exact Hperm]. rewrite Emu0. apply perm_skip.
+            eapply perm_trans; [apply perm_skip; exact Pr|]. apply Permutation_cons_append. }
+          assert (G : forall u w, Permutation (h :: t :: rest (mkset h t) U) (u :: w :: rest (mkset h t) U) ->
+                      Permutation ((rev (u :: M1) ++ (w :: M2)) ++ rest (mkset h t) U) ((rev M1 ++ M2) ++ U)).
+          { intros u w Puw. simpl. rewrite <- !app_assoc. simpl. apply Permutation_app_head.
+            change (u :: w :: M2 ++ rest (mkset h t) U) with ([u; w] ++ M2 ++ rest (mkset h t) U).
+            eapply perm_trans; [apply Permutation_app_swap_app|]. apply Permutation_app_head.
+            simpl. eapply perm_trans; [apply Permutation_sym; exact Puw|exact PU]. }
+          destruct HA' as [-> | ->]; cbn [fst snd]; apply G; [apply Permutation_refl|apply perm_swap]. }
+        split; [exists mu0'; split; [eapply perm_trans; eauto|assumption]|]. split; [reflexivity|].
+        unfold pa_eqb. destruct HA' as [-> | ->]; cbn [fst snd].
+        -- destruct (list_eq_dec N.eq_dec (h :: M1) M1) as [E|]; [|reflexivity].
+           exfalso. apply (f_equal (@length N)) in E. simpl in E. lia.
+        -- destruct (list_eq_dec N.eq_dec (t :: M1) M1) as [E|]; [|reflexivity].
+           exfalso. apply (f_equal (@length N)) in E. simpl in E. lia.
+Qed.
 End Complete.
